@@ -84,3 +84,29 @@ Proof.
   - vm_compute. reflexivity.
 Qed.
 Print Assumptions C09_nonvacuous.
+
+(* ---- the physical instance: positions in R^3, orientations in SO(3) (Lib/RigidR3.v, matrices with
+   M M^T = I and det M = 1; scipy's quaternion product is the group law there, RigidR3.quat_to_rot_mul).
+   The path semantics holds verbatim for it. *)
+From MV Require Import Lib.RigidR3.
+
+Theorem C09_move_spec_R3 : forall (o : @obj R3Ops) (d : inp V3) (st : option Z),
+  wf o -> wf_inp d -> apply_move o d st = spec_move o d st.
+Proof. exact (@move_spec R3Ops). Qed.
+
+Theorem C09_rotate_spec_R3 : forall (o : @obj R3Ops) (r : inp SO3) (a : option (inp V3)) (st : option Z),
+  wf o -> wf_inp r ->
+  let '(a', r') := match a with
+                   | Some a => let '(a', r') := multi_anchor a r in (Some a', r')
+                   | None => (None, r) end in
+  wf_inp r' ->
+  apply_rotation o r a st None = spec_rotate o r' (anchor_fun a') st.
+Proof. exact (@rotate_spec_no_parent R3Ops). Qed.
+
+Theorem C09_lengths_invariant_R3 : forall (h : list (@op R3Ops)) (o : @obj R3Ops),
+  wf o -> Forall wf_op h -> wf (run o h).
+Proof. exact (@wf_run R3Ops). Qed.
+
+Print Assumptions C09_move_spec_R3.
+Print Assumptions C09_rotate_spec_R3.
+Print Assumptions C09_lengths_invariant_R3.
